@@ -352,4 +352,37 @@ example : reorgDecision exCfg3 exS3 1 ⟨3, 3⟩ 6 [] = .disconnect := by decide
 example : (step exCfg3 exS3 (.headers 1 [6])).1.log = [0, 1, 2, 3] := by decide
 example : (step exCfg3 exS3 (.headers 1 [5])).1.log = [0, 1, 5] := by decide
 
+
+/-- **Replaced means gone.**  In every reachable state, whatever the event (a reorganisation, a
+flip back to a branch that was stored before, a checkpoint-failure rollback, a failed write, an
+import): a header that is no longer on the accepted chain after the event does not resolve by hash
+any more, and a header that is on it resolves at its position - the by-hash index is exactly the
+accepted chain, so a later message never finds a "known" header or a fork point that is not
+stored (oracle clause `displaced-header-still-resolves`; a store whose look-up memo outlives the
+roll-back falsifies it: `C01_memo_survives_rollback_counterexample`). -/
+theorem C02_displaced_do_not_resolve (c : Cfg) (peers : List Peer) (es : List Ev) (e : Ev) :
+    let s := run c (init c peers) es
+    let s' := (step c s e).1
+    (∀ id, id ∈ s.log → id ∉ s'.log → idxOf s'.log id = none) ∧
+    (∀ id, id ∈ s'.log → (idxOf s'.log id).isSome = true) := by
+  intro s s'
+  refine ⟨fun id _ hn => ?_, fun id hm => (idxOf_isSome_iff _ id).2 hm⟩
+  cases h : idxOf s'.log id with
+  | none => rfl
+  | some i => exact absurd ((idxOf_isSome_iff _ id).1 (by simp [h])) hn
+
+/-- a flip-back history in the model: A = 1,2; B = 3,4,5 heavier; A extended by 6,7 heavier again,
+re-offered from height 1 (the stored prefix is skipped as known): adopted in full, B gone. -/
+def flipTbl : Tbl :=
+  { parent := fun i => match i with
+      | 1 => some 0 | 2 => some 1 | 3 => some 1 | 4 => some 3 | 5 => some 4 | 6 => some 2 | 7 => some 6 | _ => none
+    work := fun i => if i == 7 then 2 else 1
+    valid := fun _ => true
+    fresh := fun _ => true }
+def flipCfg : Cfg := { tbl := flipTbl, cps := [], win := 8 }
+def flipEs : List Ev := [.newPeer 1, .headers 1 [1, 2], .headers 1 [3, 4, 5], .headers 1 [1, 2, 6, 7]]
+example : (run flipCfg (init flipCfg [{ id := 1, cand := true }]) (flipEs.take 3)).log = [0, 1, 3, 4, 5] := by decide
+example : (run flipCfg (init flipCfg [{ id := 1, cand := true }]) flipEs).log = [0, 1, 2, 6, 7] ∧
+    idxOf (run flipCfg (init flipCfg [{ id := 1, cand := true }]) flipEs).log 4 = none := by decide
+
 end Neutrino.BM
